@@ -1,5 +1,5 @@
 (** C15, second part -- the generic length helpers for EVERY content size.  Pinned statements only; proofs are in
-    Proofs/C15/Wrap.v.
+    Proofs/C15/Wrap.v and Wrap2.v.
 
     Props/C15.v proves "declares exactly what follows" under the premise that the count fits the field.  Here the
     output is given with no premise (the count is reduced modulo the width of the field, which is what the
@@ -7,7 +7,7 @@
     sufficient: an independent parser recovers the supplied content from the produced bytes exactly when the
     content fits.  [C15b_len_nested] is the nesting argument of Props/C15.v spelled out once, layer by layer. *)
 From RS Require Import Base.Bytes Base.Outcome Interp.Val Lib.LibBase Lib.ProtoLib Lib.StdLib
-  Spec.LenPrefix Spec.TlsParse Proofs.C15.StdHelpers Proofs.C15.Wrap.
+  Spec.LenPrefix Spec.TlsParse Spec.DhcpParse Proofs.C15.StdHelpers Proofs.C15.Wrap Proofs.C15.Wrap2.
 Open Scope N_scope.
 
 Theorem C15b_len_u8_exact : forall e parts h,
@@ -68,6 +68,12 @@ Theorem C15b_tls_extension_iff : forall e ext t parts rest h out,
   call e "tls::extension" [ext] (map VStr parts) h = Some (Ok (VStr out, h)) ->
   (parse_extension (out ++ rest) = Some ((t, concat parts), rest) <-> len (concat parts) < 65536).
 Proof. exact tls_extension_iff. Qed.
+
+Theorem C15b_dhcp_option_iff : forall e opt o parts rest h out,
+  conv_u8 opt = Ok o ->
+  call e "dhcp::option" [opt] (map VStr parts) h = Some (Ok (VStr out, h)) ->
+  (parse_dhcp_tlv (out ++ rest) = Some ((o, concat parts), rest) <-> len (concat parts) < 256).
+Proof. exact dhcp_option_iff. Qed.
 
 (** the hypotheses are met, on both sides of the boundary: 255 bytes parse back, 256 bytes declare 0 *)
 Example C15b_nonvacuous :
